@@ -217,6 +217,17 @@ def case_ledger(col, p):
                         col.violation('C04:driver%d:frozen_marginal_changed' % d, dict(info, pop=k + 1), {'maxerr': err, 'scale': msc})
                     else:
                         col.observe('frozen_marginal', err / (1e-11 * max(msc, 1e-12)))
+                # the same epoch written in absolute time (initial_t = t0, T = t0 + length) is the same epoch
+                if funcs is False and name in ('dense', 'zero'):
+                    try:
+                        out_t = np.array(drv(as_layout(phi0), xx_in, T + 0.37, initial_t=0.37, **kw))
+                        col.tick(transitions=1)
+                        e_t = float(np.abs(out_t - out).max())
+                        # ((T + t0) - t0 differs from T by a rounding error of t0, which moves the length of the last step by as much)
+                        if not e_t <= 1e-10 * scale:
+                            col.violation('C04:driver%d:depends_on_initial_t' % d, info, {'maxdiff': e_t, 'scale': scale})
+                    except Exception as e:
+                        col.violation('C04:driver%d:initial_t:raises' % d, info, '%s: %s' % (type(e).__name__, e))
                 # the library's own marginalisation (remove_pop / filter_pops, what a model uses to drop populations) is the trapezoid marginal,
                 # with the remaining populations in their original order
                 if d >= 2 and name == 'dense' and funcs is False:
